@@ -137,10 +137,17 @@ Fixpoint ensure_page_loop (fuel : nat) (st : cstate) : cstate * lstatus :=
 Definition ensure_page (st : cstate) : cstate * lstatus :=
   ensure_page_loop (S (S (length (cs_pages st)))) st.
 
-(** carquet_read_next_page, second half: available / to_copy, the copy-out, the state update *)
+(** carquet_read_next_page, second half: available / to_copy, the copy-out, the state update.
+    Repaired code: to_copy = min(max_values, available) computed in 64 bits, nothing to do when it is <= 0
+    (peek).  Pinned code ([fixed5 = false]): max_values is cast to int32 first and a negative count reaches memcpy. *)
 Definition copy_from_page (st1 : cstate) (max_values : Z) : cstate * pstatus :=
   let available := Z.of_nat (cs_pnum st1 - cs_pread st1) in
-  let to_copy := if i32 max_values >? available then available else i32 max_values in
+  let to_copy :=
+    if fixed5 then (if max_values <? available then max_values else available)
+    else (if i32 max_values >? available then available else i32 max_values) in
+  if fixed5 && (to_copy <=? 0) then
+    (st1, POk {| pr_vals := []; pr_levels := []; pr_rows := O; pr_dense := O |})
+  else
   if to_copy <? 0 then (st1, PFault OobWrite) else      (* memcpy with a negative length *)
   let n := Z.to_nat to_copy in
   match copy_out (cs_dlevels st1) (cs_pread st1) n with
